@@ -169,7 +169,8 @@ def known_match(entry: dict, row: dict) -> bool:
         return False
     if m.get("kind") and m["kind"] != row["kind"]:
         return False
-    return bool(m)
+    # an entry that only names a bounded failure class never matches a proof obligation
+    return bool(m.get("func") or m.get("label") or m.get("kind"))
 
 
 def main() -> int:
